@@ -9,7 +9,7 @@ for d in seeded/$pat; do
   [ -f "$d/patch.diff" ] || continue
   id=$(basename "$d" | cut -c1-3)
   out=$(tools/try_mutation.sh "$id" "/verif/$d/patch.diff" quick 2>&1)
-  if echo "$out" | grep -q "^VIOLATION property=$id"; then echo "reported  $d"; else echo "MISSED    $d"; missed=$((missed+1)); fi
+  if echo "$out" | grep -q "patch does not apply\|^error:"; then echo "STALE     $d (patch does not apply)"; missed=$((missed+1)); elif echo "$out" | grep -q "^VIOLATION property=$id"; then echo "reported  $d"; else echo "MISSED    $d"; missed=$((missed+1)); fi
 done
 git -C /repo status --short
 echo "missed: $missed"
